@@ -31,7 +31,8 @@ def strategy(tier):
   P = 2 if tier == 'quick' else 4
   perms = st.lists(st.integers(0, 10**6), min_size=P, max_size=P)
   return st.one_of(st.fixed_dictionaries({'perms': perms, 'h': O.history('formula', 1, 10)}),
-                   st.fixed_dictionaries({'perms': perms, 'h': O.history('rowchains', 2, 10, max_ops=3, focus='rowchains')}))
+                   st.fixed_dictionaries({'perms': perms, 'h': O.history('rowchains', 2, 10, max_ops=3, focus='rowchains')}),
+                   st.fixed_dictionaries({'perms': perms, 'h': O.history('triggers', 2, 10, max_ops=3, focus='triggers')}))
 
 
 def make_permuted_engine(seed, stats):
